@@ -41,6 +41,48 @@ def edge_clamp(ctx, crate):
                "clamp(%r) = %r, expected %r: an overshoot on one edge of a polar facet is moved to the opposite edge" % bad[0], at=b.span, kind="N")
 
 
+def pole_guard(ctx, crate):
+    """N: in `deproj_collignon` the longitude offset is divided by t = sqrt(3(1 - |z|)) unless t is
+    below a threshold.  Where the division is skipped the returned longitude is the centre of the
+    quarter whatever the input: the error on the sphere is up to colat * pi/4 with
+    t = sqrt(6) sin(colat / 2), i.e. 0.6413 * threshold.  The property's 1e-14 rad bounds the
+    threshold by 1.55e-14; and the division must stay guarded against t = 0."""
+    import math
+    from sym import Engine, show, walk
+    from mir import f64_from_bits
+    clause = "pole-guard"
+    fn = "deproj_collignon"
+    b = ctx.anchor(crate, fn, clause)
+    if b is None: return
+    e = Engine(crate); r = e.run(fn); ctx.functions |= e.visited_fns
+    # the guard: a comparison of a value with a positive constant that dominates the float division
+    divs = []
+    def vh(v, loc, facts):
+        if v[0] == 'op' and v[1] == 'div' and v[2] == 'f64': divs.append((v, set(facts)))
+    e2 = Engine(crate); e2.value_hook = vh; e2.run(fn)
+    if not divs:
+        ctx.undecided(clause, fn + ":division", "no float division found", at=b.span); return
+    ok = True; why = ""; thr = None
+    for v, facts in divs:
+        den = v[4]
+        g = [f for f in facts if f[0] == 'b' and f[1][0] == 'op' and f[1][1] in ('gt', 'ge', 'lt', 'le') and den in (f[1][3], f[1][4]) and any(x[0] == 'c' and x[1] == 'f64' for x in (f[1][3], f[1][4]))]
+        if not g:
+            ok = False; why = "the division by %s is not guarded by a comparison of the divisor with a constant" % show(den)[:40]; break
+        f = g[0]; c = f[1][3] if f[1][4] == den else f[1][4]
+        thr = f64_from_bits(c[2])
+        # normalise to: den OP thr  with the fact's truth
+        op = f[1][1] if f[1][3] == den else {'gt': 'lt', 'ge': 'le', 'lt': 'gt', 'le': 'ge'}[f[1][1]]
+        holds = f[2]
+        excludes_zero = (op == 'gt' and holds and thr >= 0.0) or (op == 'ge' and holds and thr > 0.0) or (op == 'le' and not holds and thr >= 0.0) or (op == 'lt' and not holds and thr > 0.0)
+        if not excludes_zero:
+            ok = False; why = "the guard %s (%s) does not exclude a zero divisor" % (show(f[1])[:60], holds); break
+        err = thr * (math.pi / 4) / math.sqrt(1.5)
+        if err > 1e-14:
+            ok = False; why = "threshold %g: inside it unproj returns the centre of the quarter, up to %.3g rad from the position on the sphere (colat * pi/4 with t = sqrt(6) sin(colat/2)) — the property allows 1e-14" % (thr, err); break
+        why = "division guarded by t > %g: skipped zone costs at most %.2g rad on the sphere" % (thr, err)
+    ctx.report(clause, fn + ":threshold", ok, why, at=b.span, kind="N", sample={"threshold": thr})
+
+
 def run(ctx):
     cfgs = ["rel"] if ctx.tier == "quick" else ["rel", "dbg"]
     for cfg in cfgs:
@@ -71,7 +113,9 @@ def run(ctx):
             ctx.undecided("longitude-reduction", fn + ":shape", "unexpected return %s" % show(ret), at=b.span)
     from rules import c17_table
     c17_table.run(ctx, crate)
+    c17_table.run(ctx, ctx.crate("dbg"), tag="[dbg]")      # the dev profile keeps the debug assertions: a key that trips one has no value
     edge_clamp(ctx, crate)
+    pole_guard(ctx, crate)
     ctx.not_decided("the projection formulae, inverse property, 1e-14 accuracy (float numerics); base_cell_from_proj_coo on points exactly on a diagonal / facet seam (float ties)")
     from rules import cancellation
     cancellation.check(ctx, ctx.crate("rel"), ['proj', 'unproj', 'base_cell_from_proj_coo'], floor=8)
